@@ -104,6 +104,11 @@ def _guarded_flip(fx, b, v):
     return None
 
 
+def _is_empty_set(t):
+    return (t[0] in ("call", "site") and (t[1] if t[0] == "call" else t[2]) in (
+        "alloc::collections::btree::set::BTreeSet::new", "core::default::Default::default"))
+
+
 def write_sites(crate, an):
     """mutation sites of a `&mut self` body: insertion / removal / toggling of arcs"""
     fx = crate.fx(an.path)
@@ -118,7 +123,12 @@ def write_sites(crate, an):
                 if root is None:
                     continue
                 kind = "insert" if key in INSERT_KEYS else "remove"
-                out.append(WriteSite(kind, ev["b"], ev["span"], ev=ev, op=INSERT_KEYS.get(key, key.split("::")[-1]), root=root))
+                op_ = INSERT_KEYS.get(key, key.split("::")[-1])
+                if key == "alloc::collections::btree::map::BTreeMap::insert" and len(ev["args"]) == 3 and _is_empty_set(ev["args"][2]):
+                    op_ = "entry"       # map.insert(k, BTreeSet::new()): admits the vertex k, inserts no arc
+                out.append(WriteSite(kind, ev["b"], ev["span"], ev=ev, op=op_, root=root))
+            elif key == "alloc::collections::btree::map::entry::VacantEntry::insert" and len(ev["args"]) == 2 and _is_empty_set(ev["args"][1]):
+                out.append(WriteSite("insert", ev["b"], ev["span"], ev=ev, op="entry", root="via-vacant-entry"))
             elif key in CLOSURE_CONSUMERS and any(x[0] == "agg" and x[1] == "closure" for x in ev["args"]):
                 pass    # the closure body is scanned below
             elif not ev["pure"] and not ev["diverges"] and under_self(an, a0) is not None and key != ENTRY_KEY:
@@ -183,6 +193,19 @@ def endpoints(crate, an, fx, w):
             E = ev["args"][1]
             if E[0] == "agg" and E[1] == "tuple" and len(E[3]) == 2:
                 return E[3][0], E[3][1]
+        # insert into the row found by map.get_mut(&u)
+        if a0[0] == "field" and a0[2] == "0" and a0[1][0] == "dc" and a0[1][2] == "Some" and a0[1][1][0] in ("call", "site") and len(ev["args"]) >= 2:
+            g = a0[1][1]
+            gkey = g[1] if g[0] == "call" else g[2]
+            gargs = g[3] if g[0] == "call" else ((fx.an_call_at(g[1]) or {}).get("args") or ())
+            if gkey == "alloc::collections::btree::map::BTreeMap::get_mut" and len(gargs) == 2:
+                return value_at(an, gargs[1]), ev["args"][1]
+        # map.insert(u, BTreeSet::from([v])): a fresh row with one head
+        if ev["key"] == "alloc::collections::btree::map::BTreeMap::insert" and len(ev["args"]) == 3:
+            row = ev["args"][2]
+            if row[0] == "call" and row[1] == "core::convert::From::from" and row[3] and row[3][0][0] == "agg" and row[3][0][1] == "array" \
+                    and len(row[3][0][3]) == 1:
+                return ev["args"][1], row[3][0][3][0]
         # insert into the set returned by entry(u).or_default()
         if a0[0] == "site" and len(ev["args"]) >= 2:
             e2 = fx.an_call_at(a0[1])
@@ -347,11 +370,55 @@ def rule_guard(crate, prop, tier):
         if T.endswith("AdjacencyMap") and name == "add_arc":
             ents = [ev for ev in an.events if ev["k"] == "call" and ev["key"] == ENTRY_KEY]
             keys = {ev["args"][1] for ev in ents if an.cfg.postdominates(ev["b"], 0)}
-            o.check(("arg", 2) in keys and ("arg", 3) in keys, pretty, "admit-both-endpoints",
+            both = ("arg", 2) in keys and ("arg", 3) in keys
+            if not both:
+                # path form: on every path to a normal return each endpoint was made a key (entry(k) / insert(k, ..)) or found
+                # to be one (get_mut(&k) / get(&k) is Some, contains_key(&k))
+                both = all(_becomes_key(an, fx, ("arg", k_)) for k_ in (2, 3))
+            o.check(both, pretty, "admit-both-endpoints",
                     "add_arc does not make both endpoints keys of the map on every path (a head that is no vertex becomes observable)")
             ods = [w for w in ws if w.op == "entry"]
-            o.check(len(ods) >= 2, pretty, "admit-or-default", "the endpoints' rows are not created with or_default()")
+            o.check(len(ods) >= 2 or both, pretty, "admit-or-default", "the endpoints' rows are not created with or_default()")
     return o.report(floors={"mutators (&mut representation)": (len(muts), 11), "insertion sites": (nins, 6)})
+
+
+def _becomes_key(an, fx, k):
+    """on every path from the entry to a normal return, vertex k is a key of self.arcs"""
+    def names(x):
+        return x == k or value_at(an, x) == k
+    keyed = set()
+    lookups = []
+    for ev in an.events:
+        if ev["k"] != "call" or not ev["key"] or len(ev["args"]) < 2:
+            continue
+        a0 = ev["args"][0]
+        if not (a0[0] in ("addr", "at") and isinstance(a0[1], str) and a0[1].startswith("A1.")):
+            continue
+        if ev["key"] in (ENTRY_KEY, "alloc::collections::btree::map::BTreeMap::insert") and names(ev["args"][1]):
+            keyed.add(ev["b"])
+        if ev["key"] in ("alloc::collections::btree::map::BTreeMap::get_mut", "alloc::collections::btree::map::BTreeMap::get") \
+                and names(ev["args"][1]):
+            lookups.append(ev["res"])
+    if not keyed:
+        return False
+    seen, work = set(), [0]
+    while work:
+        x = work.pop()
+        if x in seen:
+            continue
+        seen.add(x)
+        if x in keyed:
+            continue
+        if x in an.cfg.returns:
+            return False
+        for tg, lab in an.cfg.succ[x]:
+            if tg not in an.cfg.can_return:
+                continue
+            atoms = set(fx.close(fx.edge_atoms(x, lab, tg)))
+            if any(("variant", r_, "Some") in atoms for r_ in lookups):
+                continue
+            work.append(tg)
+    return True
 
 
 def rule_nopanic_after_write(crate, prop, tier):
